@@ -1,4 +1,6 @@
 import AthlibVerif.Lemmas.HJ
+import AthlibVerif.Lemmas.CardShape
+import AthlibVerif.Lemmas.Consec
 /-!
 # C02 — High jump: only rule-conforming trials are recorded; refusals change nothing
 
@@ -278,6 +280,62 @@ theorem C02_add_before_first_height (c : Comp) (b : Nat) (hr : Reachable c) :
   have h2 : c.heights = [] ↔ c.phase = .scheduled := (inv_reachable c hr).2
   rw [C02_add_only_scheduled, h2]
 
+/-! ## what every reachable card looks like (Lemmas/Places, Lemmas/CardShape) -/
+
+theorem wf_reachable (c : Comp) (h : Reachable c) : WF c := by
+  induction h with
+  | init => exact ⟨by simp, by simp⟩
+  | step c op _ ih => exact step_WF c op ih
+
+theorem allFlags_reachable (c : Comp) (h : Reachable c) : AllFlags c := by
+  induction h with
+  | init => intro j hj; cases hj
+  | step c op hr ih => exact step_AllFlags c op (wf_reachable c hr) ih
+
+/-- **Never more than three attempts at a height, failures first** — every card of every reachable competition:
+    each cell holds at most three marks, and all but the last are failures (a clearance, pass or retirement closes
+    the cell). -/
+theorem C02_card_shape (c : Comp) (h : Reachable c) (j : Jumper) (hj : j ∈ c.jumpers) (cell : List Trial)
+    (hc : cell ∈ j.card) : cell.dropLast.all (· == .x) = true ∧ cell.length ≤ 3 :=
+  (allFlags_reachable c h j hj).cells cell hc
+
+/-- no card is longer than the list of heights; an athlete who is out is also done at the current height; the
+    attempt limit is three, or one for a re-instated (jump-off) athlete -/
+theorem C02_flags_follow_card (c : Comp) (h : Reachable c) (j : Jumper) (hj : j ∈ c.jumpers) :
+    j.card.length ≤ c.heights.length ∧ (j.eliminated = true → j.dismissed = true) ∧ (j.roundLim = 1 ∨ j.roundLim = 3) :=
+  ⟨(allFlags_reachable c h j hj).len, (allFlags_reachable c h j hj).outDone, (allFlags_reachable c h j hj).lim⟩
+
+/-- **An accepted trial goes into an open cell**: in every reachable state, the athlete whose trial is accepted has
+    only failures — fewer than the attempt limit — at the current height, so nobody jumps again after clearing,
+    passing or retiring at a height, and nobody gets a fourth attempt. -/
+theorem C02_accepted_trial_open_cell (c : Comp) (hr : Reachable c) (b : Nat) (t : Trial)
+    (h : (step c (.trial b t)).2 = .ok) :
+    ∃ j, c.find b = some j ∧
+      let cur := (padCard j.card c.heights.length).getLast?.getD []
+      cur.all (· == .x) = true ∧ cur.length < j.roundLim ∧ cur.length < 3 := by
+  obtain ⟨j, hj, _, _, he, hd, hlt⟩ := C02_attempt_limit c b t h
+  have hf := allFlags_reachable c hr j (List.mem_of_find?_eq_some hj)
+  refine ⟨j, hj, hf.openCell he hd, hlt, ?_⟩
+  rcases hf.lim with e | e <;> omega
+
+theorem allConsec_reachable (c : Comp) (h : Reachable c) : AllConsec c := by
+  induction h with
+  | init => intro j hj; cases hj
+  | step c op hr ih => exact step_AllConsec c op (wf_reachable c hr) (allFlags_reachable c hr) ih
+
+/-- **Three consecutive failures, read off the card.**  In every reachable state, for every athlete who has not been
+    re-instated for a jump-off (attempt limit still three): the number of failures on the card since the last
+    clearance (passes and skipped heights do not interrupt the run) is at most three, and the athlete is out
+    exactly when it has reached three or the card shows a retirement. -/
+theorem C02_three_consecutive_failures (c : Comp) (h : Reachable c) (j : Jumper) (hj : j ∈ c.jumpers)
+    (h3 : j.roundLim = 3) :
+    trailingX j.card.flatten ≤ 3 ∧
+    (j.eliminated = true ↔ (j.card.flatten.contains .r = true ∨ 3 ≤ trailingX j.card.flatten)) := by
+  have hc := allConsec_reachable c h j hj
+  have e := hc.count h3
+  rw [← e]
+  exact ⟨hc.bound h3, hc.out h3⟩
+
 /-! non-vacuity: a reachable drawn competition, a reachable jump-off, a refused call (kernel-evaluated) -/
 def runOps (ops : List Op) : Comp := ops.foldl (fun c op => (step c op).1) {}
 
@@ -290,5 +348,9 @@ theorem reachable_runOps (ops : List Op) : Reachable (runOps ops) := by
 example : (runOps [.add 1, .add 2, .bar 105, .trial 1 .o, .trial 2 .o, .bar 108, .trial 1 .r, .trial 2 .r]).phase = .drawn := by decide
 example : (runOps [.add 1, .add 2, .bar 105, .trial 1 .x, .trial 1 .x, .trial 1 .x, .trial 2 .x, .trial 2 .x, .trial 2 .x]).phase = .jumpoff := by decide
 example : (step (runOps [.add 1, .bar 105, .trial 1 .o]) (.trial 1 .o)).2 = .rule := by decide
+
+/-- a failure, a pass, and two failures at the next height: three in a row on the card, out -/
+example : (runOps [.add 1, .add 2, .bar 105, .trial 1 .x, .trial 1 .p, .bar 110, .trial 1 .x, .trial 1 .x]).jumpers.map
+    (fun j => (j.roundLim, j.eliminated, trailingX j.card.flatten)) = [(3, true, 3), (3, false, 0)] := by decide +kernel
 
 end AthlibVerif.Props.C02
